@@ -306,7 +306,7 @@ def valid_hdf5_path_component(name):
     Conditions: String, no ``'/'``, and overall ``name != '.'``.
     """
     # unicode is encoded correctly by h5py and works - amazing!
-    return isinstance(name, str) and '/' not in name and name != '.'
+    return isinstance(name, str) and '/' not in name and name not in ('.', '')
 
 
 class Hdf5FormatError(Exception):
